@@ -1,7 +1,7 @@
 import Tetro.Model.Timer
 import Tetro.Spec.Timer
 namespace Tetro.C12
-open Tetro.Timer (Write Obs)
+open Tetro.Timer (Write Obs Call)
 
 /-- invariant of the code model at machine-cycle boundaries (after `EndMachineCycle`) -/
 structure MInv (t : Model.Timer.T) : Prop where
@@ -275,5 +275,66 @@ theorem step_ok (t : Model.Timer.T) (h : MInv t) (w : Option Write) (hw : ByteW 
     | tac v => exact step_tac t h v hw
 
 end step
+
+/-! ### C12 main theorem: refinement -/
+
+def Bytes (ws : List (Option Write)) : Prop := ∀ w ∈ ws, ByteW w
+
+/-- the simulation relation is preserved along any guest schedule -/
+theorem run_ok (t : Model.Timer.T) (h : MInv t) (ws : List (Option Write)) (hws : Bytes ws) :
+    MInv (Model.Timer.run t ws) ∧ abs (Model.Timer.run t ws) = Spec.Timer.run (abs t) ws := by
+  induction ws generalizing t with
+  | nil => exact ⟨h, rfl⟩
+  | cons w ws ih =>
+    obtain ⟨hi, ha, _⟩ := step_ok t h w (hws w (List.mem_cons_self ..))
+    have := ih (Model.Timer.cycle t w) hi (fun x hx => hws x (List.mem_cons_of_mem _ hx))
+    simp only [Model.Timer.run, Spec.Timer.run, List.foldl_cons] at *
+    rw [← ha]; exact this
+
+/-- C12 (main).  From EVERY cycle-boundary state of the code model (any counter phase, any register
+    values, any reload phase) and for EVERY guest schedule – a list of machine cycles, each with at
+    most one write to DIV/TIMA/TMA/TAC (byte values) – the sequence of observations
+    (DIV, TIMA, TMA, TAC reads and the interrupt request of each cycle) produced by the model of
+    timer.go equals the one produced by the documentation-shaped specification. -/
+theorem c12_refines (t : Model.Timer.T) (h : MInv t) (ws : List (Option Write)) (hws : Bytes ws) :
+    Model.Timer.observe t ws = Spec.Timer.observe (abs t) ws := by
+  induction ws generalizing t with
+  | nil => rfl
+  | cons w ws ih =>
+    obtain ⟨hi, ha, ho⟩ := step_ok t h w (hws w (List.mem_cons_self ..))
+    simp only [Model.Timer.observe, Spec.Timer.observe]
+    rw [ho, ih _ hi (fun x hx => hws x (List.mem_cons_of_mem _ hx)), ha]
+
+/-- the power-on state of `timer.New()` with the counter set to any value is a legal start -/
+theorem minv_init (c : Nat) (hc : c < 65536) : MInv (Model.Timer.setCounter Model.Timer.init c) := by
+  refine ⟨hc, ?_, ?_, ?_, ?_, rfl, ?_, ?_⟩ <;>
+    simp [Model.Timer.setCounter, Model.Timer.init, Model.Timer.edgeSet]
+
+/-- `EndMachineCycle` re-establishes the invariant from any mid-cycle state with in-range fields
+    in which no write-caused overflow is pending (`reloadDelay ≤ 1`) -/
+theorem minv_endCycle (u : Model.Timer.T) (_h1 : u.counter < 65536) (h2 : u.tac < 256)
+    (h3 : u.tima < 256) (h4 : u.tma < 256) (h5 : u.reloadDelay ≤ 1) :
+    MInv (Model.Timer.endCycle u) := by
+  simp only [Model.Timer.endCycle, endCyclePre_eq, loadedTima]
+  refine ⟨?_, ?_, ?_, ?_, ?_, ?_, ?_, ?_⟩
+  case refine_7 => simp only [edgeSet_eq]
+  all_goals simp only []
+  all_goals (repeat' split) <;> (try simp_all) <;> (try omega)
+
+/-- the start states of the correspondence harness (`reset c tima tma tac`) are legal starts -/
+theorem minv_harness_reset (c a m k : Nat) (hc : c < 65536) (ha : a < 256) (hm : m < 256) (hk : k < 256) :
+    MInv (Model.Timer.endCycle (Model.Timer.setCounter
+      (Model.Timer.writeTMA (Model.Timer.writeTIMA (Model.Timer.writeTAC Model.Timer.init k) a) m) c)) := by
+  apply minv_endCycle <;>
+    simp [Model.Timer.setCounter, Model.Timer.writeTMA, Model.Timer.writeTIMA, Model.Timer.writeTAC,
+      Model.Timer.init, checkFallingEdge_eq] <;> omega
+
+/-- non-vacuity of `c12_refines`: the fresh timer, a schedule with an overflow, a reload and writes -/
+example : MInv Model.Timer.init := minv_init 0xabcc (by decide)
+example : Bytes [some (.tac 5), some (.tima 0xff), none, some .div, some (.tma 7), none] := by
+  intro w hw; simp at hw; rcases hw with rfl | rfl | rfl | rfl | rfl | rfl <;> simp [ByteW]
+example : (Model.Timer.observe Model.Timer.init
+    [some (.tac 5), some (.tima 0xff), some (.tma 0x42), none, none, none]).map (fun o => (o.tima, o.irq))
+    = [(1, false), (0xff, false), (0xff, false), (0xff, false), (0, true), (0x42, false)] := by decide
 
 end Tetro.C12
